@@ -46,6 +46,14 @@ def replay(pid, cx):
         p = subprocess.run(args, stdout=subprocess.PIPE, stderr=subprocess.STDOUT)
         print(p.stdout.decode())
         return 1 if p.returncode == 1 else 0
+    if (cx.get('input') or '').startswith('real-driver schedule '):
+        import witness
+        exe = witness.build()
+        n = cx['input'].split()[-1]
+        p = subprocess.run([exe, 'realdriver1', n], stdout=subprocess.PIPE, stderr=subprocess.STDOUT, timeout=120)
+        print('replay of real-driver schedule %s: the real RealDriver / DevInputReader / DevInputWriter / per-device loop on OS pipes' % n)
+        print(p.stdout.decode())
+        return 1 if p.returncode == 1 else 0
     if pid == 'C18':
         import witness
         exe = witness.build()
@@ -70,6 +78,44 @@ def c18_hash():
     for f in C18_SOURCES: h.update(open(os.path.join(A.REPO_SRC, f), 'rb').read())
     h.update(open(os.path.join(KANI_DIR, 'src', 'main.rs'), 'rb').read())
     return h.hexdigest()[:24]
+
+
+def run_real_driver_pipes_c10(tier, seed):
+    """mismatches between what is written and the mapper's outputs for the delivered events count against C10"""
+    return run_real_driver_pipes(tier, seed, 'real_driver_pipes_c10', lambda w: 'write failed' not in w and 'did not stop' not in w)
+
+
+def run_real_driver_pipes_c20(tier, seed):
+    """a loop that does not stop with the error after a failed write counts against C20"""
+    return run_real_driver_pipes(tier, seed, 'real_driver_pipes_c20', lambda w: 'write failed' in w or 'did not stop' in w)
+
+
+_RDP = {}
+def run_real_driver_pipes(tier, seed, name='real_driver_pipes', keep=lambda w: True):
+    """C10 / C12 / C20: the REAL driver (mio epoll, nix read/write), readers, writer and per-device loop on OS pipes, compared with the mapper's outputs"""
+    import witness
+    out = dict(name=name, kind='enumerative (bounded)', counts_as_proof=False)
+    try:
+        exe = witness.build()
+    except Exception as e:
+        out['undecided'] = 'harness build failed: %s' % str(e)[-300:]; return out
+    cases = 60 if tier == 'quick' else 3000
+    t0 = time.time()
+    try:
+        p = subprocess.run([exe, 'realdriver', str(seed + 1), str(cases)], stdout=subprocess.PIPE, stderr=subprocess.PIPE, timeout=1800)
+        d = json.loads(p.stdout.decode().strip().split('\n')[-1])
+    except Exception as e:
+        out['undecided'] = 'probe did not finish or output unreadable: %s' % str(e)[-300:]; return out
+    out.update(exhaustive=False, evaluations=d['cases'], distinct_nontrivial=d['writes_compared'], sample='real-driver schedule %d' % ((seed + 1) * 7919), wall_s=round(time.time() - t0, 2),
+               explanation=('the assumption "RealDriver meets the Driver contract" is exercised, not proved: keyboard, tablet switch and virtual keyboard are OS pipes; the real RealDriver (mio edge-triggered epoll, EAGAIN -> Busy), '
+                            'DevInputReader, TabletModeSwitchReader, DevInputWriter and do_remapping_loop_one_device run in a thread; %d seeded schedules write several key records per write (one readiness edge for several events), '
+                            'foreign records in between, tablet-switch records, also tablet and keyboard ready in the same wake-up (both handling orders accepted); every write to the virtual keyboard (%d in all) is decoded and compared, '
+                            'batch by batch, with the outputs of a reference Mapper for the delivered events; at the end a failing write must stop the loop with an error. Bounded and timing-dependent: never counted as proof') % (d['cases'], d['writes_compared']),
+               bound='%d random schedules of at most 14 key events, layouts of at most 4 mappings, no Special repeats' % d['cases'])
+    fl = [f for f in d['failures'] if keep(f['what'])]
+    out['violations'] = len(fl)
+    out['violation_list'] = [dict(input=f['input'], what=f['what']) for f in fl[:1]]
+    return out
 
 
 def run_anymod_bounded(tier, seed):
